@@ -11,6 +11,7 @@ import S4V.Model.Syslines
 import S4V.Model.Gate
 import S4V.Model.SortDrain
 import S4V.Drv.Journal
+import S4V.Drv.Tmp
 
 open S4V.Model S4V.Model.Wire
 
@@ -185,6 +186,7 @@ def step (line : String) : String :=
   | "gate" :: rest => stepGate rest
   | "sort" :: rest => stepSort rest
   | "jrn" :: rest => S4V.Drv.stepJournal rest
+  | "tmp" :: rest => S4V.Drv.stepTmp rest
   | _ => "bad-op"
 
 partial def loop (h : IO.FS.Stream) (out : IO.FS.Stream) : IO Unit := do
